@@ -38,6 +38,7 @@ IMPORTS = ("From TP Require Import Model.Dilation Model.COM Model.COMCheck "
 
 SIG_F13 = 'locate: ecc differs under transposition (cosmask centre weight)'
 SIG_F15 = 'locate: where_close tie (equal mass, equal coordinate sum) resolved by row order differs under transposition'
+SIG_F16 = 'locate: where_close tie (equal mass, equal coordinate sum) decided by float rounding of the sums differs under translation'
 AX = {2: ['y', 'x'], 3: ['z', 'y', 'x']}
 
 
@@ -208,16 +209,23 @@ def run_locate(img, p):
 
 
 def candidates(img, p):
-    """the table before where_close (same calls as locate makes), for explaining ties"""
+    """the table before where_close (the calls locate makes up to refine_com), for explaining ties"""
     import trackpy as tp
     from trackpy.find import grey_dilation
     from trackpy.refine import refine_com
+    from trackpy.preprocessing import bandpass, convert_to_int
     nd = img.ndim
     d, rad, sep, sm, ns, margin = axis_values(p, nd)
+    is_float = not np.issubdtype(img.dtype, np.integer)
     with warnings.catch_warnings():
         warnings.simplefilter('ignore')
-        co = grey_dilation(img, sep, p.get('percentile', 64), margin, precise=False)
-        return refine_com(img, img, rad, co, max_iterations=p.get('max_iterations', 10),
+        thr = p.get('threshold')
+        if thr is None:
+            thr = 1 / 255. if is_float else 1
+        image = bandpass(img, ns, sm, thr) if p.get('preprocess', True) else img
+        sf, image = convert_to_int(image, np.uint8 if is_float else img.dtype)
+        co = grey_dilation(image, sep, p.get('percentile', 64), margin, precise=False)
+        return refine_com(img, image, rad, co, max_iterations=p.get('max_iterations', 10),
                           engine=p.get('engine', 'auto'), characterize=p.get('characterize', True)), sep
 
 
@@ -274,6 +282,58 @@ def jparams(p):
 
 def unj(p):
     return {k: (tuple(v) if isinstance(v, list) else v) for k, v in p.items()}
+
+
+def tied_partner(i, pos, mass, sep):
+    """candidate i has a partner of exactly equal mass, closer than separation, whose
+    rescaled coordinate sum equals its own up to rounding (1e-9)"""
+    rs = pos / np.array(sep, dtype=float)
+    sums = rs.sum(1)
+    for j in range(len(pos)):
+        if j != i and mass[j] == mass[i] and ((rs[j] - rs[i]) ** 2).sum() < 1 - 1e-6 \
+                and abs(sums[j] - sums[i]) <= 1e-9 * (1 + abs(sums[i])):
+            return True
+    return False
+
+
+def explain_translation_tie(c, A0, B0, delta):
+    """True iff the two placements differ ONLY through where_close resolving an exact tie
+    (equal mass, equal coordinate sum) differently: verified on the case itself"""
+    from trackpy.find import where_close
+    nd = A0.ndim
+    p = dict(c['params'])           # without minmass / maxsize / topn
+    ca, sep = candidates(A0, p)
+    cb, _ = candidates(B0, p)
+    if len(ca) != len(cb) or len(ca) == 0 or not all(s > 0 for s in sep):
+        return False
+    dl = np.array([delta[a] for a in AX[nd]], dtype=float)
+    pa, pb = ca[AX[nd]].values, cb[AX[nd]].values
+    if np.abs(pb - pa - dl).max() > 1e-9 or not np.array_equal(ca['mass'].values, cb['mass'].values):
+        return False
+    da = set(int(i) for i in where_close(ca[AX[nd]], sep, ca['mass']))
+    db = set(int(i) for i in where_close(cb[AX[nd]], sep, cb['mass']))
+    D = da ^ db
+    if not D:
+        return False
+    if not all(tied_partner(i, pa, ca['mass'].values, sep) and tied_partner(i, pb, cb['mass'].values, sep) for i in D):
+        return False
+    A, B = run_locate(A0, p), run_locate(B0, p)
+    if isinstance(A, str) or isinstance(B, str) or list(A.columns) != list(B.columns):
+        return False
+    tied = [pa[i] for i in D]
+    is_tied = lambda row: any(np.abs(np.array(row) - t).max() < 1e-6 for t in tied)
+    ka = {tuple(np.round(r, 6)): k for k, r in enumerate(A[AX[nd]].values)}
+    kb = {tuple(np.round(r - dl, 6)): k for k, r in enumerate(B[AX[nd]].values)}
+    for key in set(ka) ^ set(kb):
+        if not is_tied(key):
+            return False
+    common_keys = sorted(set(ka) & set(kb))
+    if common_keys:
+        A2 = A.iloc[[ka[k] for k in common_keys]].reset_index(drop=True)
+        B2 = B.iloc[[kb[k] for k in common_keys]].reset_index(drop=True)
+        if diff_columns(A2, B2, delta, exact_vals=True, ep=tuple(c['shape1']) == tuple(c['shape2'])):
+            return False
+    return True
 
 
 # -------------------------------------------------------------- translation
@@ -335,6 +395,21 @@ def resolve_post(c, base):
 
 
 def eval_translation(chk, c, report=True):
+    res = eval_translation_raw(chk, c)
+    if res.get('what') and not res['sig'].startswith('locate: exception'):
+        nd = c['content'].ndim
+        A0 = place(c['content'], c['shape1'], c['off1'])
+        B0 = place(c['content'], c['shape2'], c['off2'])
+        delta = {a: c['off2'][k] - c['off1'][k] for k, a in enumerate(AX[nd])}
+        if explain_translation_tie(c, A0, B0, delta):
+            res['what'] = ('content moved by %s: where_close resolves a pair of candidates with equal mass and equal coordinate sum differently '
+                           '(float rounding of the sums); every other row agrees.  Originally: %s' % (delta, res['what']))
+            res['sig'] = SIG_F16
+            res['tie'] = True
+    return res
+
+
+def eval_translation_raw(chk, c):
     nd = c['content'].ndim
     A0 = place(c['content'], c['shape1'], c['off1'])
     B0 = place(c['content'], c['shape2'], c['off2'])
@@ -381,6 +456,23 @@ def j_translation(c):
 def unj_translation(j):
     return dict(kind='translation', content=np.array(j['content'], dtype=j['dtype']), shape1=tuple(j['shape1']), shape2=tuple(j['shape2']),
                 off1=tuple(j['off1']), off2=tuple(j['off2']), params=unj(j['params']), post=j.get('post', {}), gen=j.get('gen'))
+
+
+def corpus_translation():
+    out = []
+    # F16 witness: two identical blobs, centres differing by (-3,+3): equal mass, equal coordinate sum
+    content = np.zeros((25, 35), np.uint8)
+    stamp(content, (8, 13), 229.5, 1.0, 4)
+    stamp(content, (11, 10), 229.5, 1.0, 4)
+    out.append(dict(kind='translation', content=content, shape1=(44, 59), shape2=(44, 59), off1=(10, 10), off2=(8, 14),
+                    params=dict(diameter=5, separation=5, percentile=10, max_iterations=1, preprocess=False), post={}, gen='corpus-F16'))
+    # one bright, one dim blob close to the percentile threshold, odd offset, canvas changes size
+    content = np.zeros((20, 24), np.uint8)
+    stamp(content, (6, 7), 240, 1.2, 4)
+    stamp(content, (13, 17), 40, 1.2, 4)
+    out.append(dict(kind='translation', content=content, shape1=(90, 96), shape2=(101, 93), off1=(33, 34), off2=(40, 31),
+                    params=dict(diameter=7, preprocess=True), post={}, gen='corpus-dim'))
+    return out
 
 
 def big_cases(rng):
@@ -456,7 +548,7 @@ def explain_tie(c, p, onlyA, onlyB, A_img):
         i = hit[0]
         ok = False
         for j in range(len(cand)):
-            if j != i and mass[j] == mass[i] and sums[j] == sums[i] and ((rs[j] - rs[i]) ** 2).sum() < 1 - 1e-6:
+            if j != i and mass[j] == mass[i] and abs(sums[j] - sums[i]) <= 1e-9 * (1 + abs(sums[i])) and ((rs[j] - rs[i]) ** 2).sum() < 1 - 1e-6:
                 ok = True
         if not ok:
             return False
@@ -796,7 +888,7 @@ def run(chk):
 
     # ---- (T) translation on the implementation
     nT = 260 if quick else 2600
-    cases = [gen_translation(rng, chk.tier) for _ in range(nT)] + big_cases(rng)
+    cases = corpus_translation() + [gen_translation(rng, chk.tier) for _ in range(nT)] + big_cases(rng)
     if not quick:
         cases += big_cases(rng) + big_cases(rng)
     mon_terms, mon_cases = [], []
@@ -810,6 +902,8 @@ def run(chk):
             chk.tally('translation: canvas size also changes (ep not compared)')
         if c['gen'] == 'big':
             chk.tally('translation: canvas > 1 Mpx')
+        if r.get('tie'):
+            chk.tally('translation: where_close tie decided by rounding (F16)')
         if report(chk, r, j_translation(c) if c['gen'] != 'big' else dict(kind='big', note='regenerate with the same seed', params=jparams(c['params']), off1=list(c['off1']), off2=list(c['off2']), diff=str(r.get('bad')))):
             continue
         if (not isinstance(r['A'], str) and 1 <= r['n'] <= 30 and len(mon_terms) < (120 if quick else 600)
